@@ -14,30 +14,54 @@ from vf import attach, core, gen, tol
 from vf.oracles import helpers as O
 
 PROP_ID = 'C20'
-TECHNIQUE = ('runtime post-condition monitors with scalar reference oracles (clamped linear interpolation, greatest '
+TECHNIQUE = ('runtime pre/post-condition monitors (argument snapshot at entry, argument purity) with scalar reference oracles (clamped linear interpolation, greatest '
              'node <= query, clamped-index window means, per-split deviation sums, side means) + cross-function '
              'identity / one-sided-limit / bisection-scan relations for the NZS 1170.5 functions')
-RULE = ('cases = calls of the real functions through the public names. Interpolation: strictly increasing node sets '
-        '(sorted random, integer grids, log-spaced, very uneven, offset with spacing << magnitude, 1..8 nodes, 1..4 columns, overall scale 10^U(-12,6), '
-        'float and int32/int64 dtype for nodes, queries and tables) with queries inside / on nodes / a hair (1 ulp, 1e-15..1e-9) next to nodes / below / above; distinct = digest(queries, '
-        'nodes, table), non-trivial = some query strictly inside a non-constant table. Rolling average: record classes '
-        'of gen.record, 1..40 (some up to 400) samples in five containers, every window 1..len drawn at random, the four '
-        'mode strings; non-trivial = non-constant series and window > 1. Step fit: 2..30 (some up to 120) samples, '
-        'positive / negative / mixed-sign / step-like data, float64 / float32 / integer dtype, lists, tuples, p in {1,2}, dir=None; '
-        'non-trivial = non-constant series. Design spectra: T in {0, every boundary*(1 -+ 1e-12), U(0,6), 10^U(-6,3)} as '
-        'float / np.float64 / float and integer arrays (int32, int64, arange) / lists and tuples of floats, ints or both, classes C D E, Z R N uniform in their code ranges; a fixed grid of [0, 6.5] '
-        '(distinct by construction) is scanned for jumps with bisection down to 1e-12.')
+RULE = ('cases = calls of the real functions through the public names, positionally and by keyword. Interpolation: strictly '
+        'increasing node sets (sorted random, integer grids, log-spaced, very uneven, offset with spacing << magnitude, 1..8 '
+        'nodes, 1..4 columns, overall scale 10^U(-12,12) or a power of two, table columns 10^U(-12,12)); nodes / queries / '
+        'tables as float64, float32 (all or some arguments), int64, int32 and int8/uint8/int16/uint16 spanning most of the '
+        'range of the dtype; queries inside / on nodes / one ulp or a hair (1e-15..1e-9) next to nodes / mid-points / below / '
+        'above; interp_left queries, nodes and values also as lists and tuples, scalar queries as Python and numpy numbers; '
+        'distinct = digest(queries, nodes, table), non-trivial = some query strictly inside a non-constant table. Rolling '
+        'average: record classes of gen.record (amplitude 10^U(-12,12) in a quarter of the cases, small signals on large '
+        'offsets, plateaus at the start / end, the extreme at the first / last sample), 1..40 samples, lengths 2^k-1, 2^k, 2^k+1 '
+        'up to 513, some up to 400, in 14 container / dtype forms (float64, float32, int64, int32, narrow and unsigned ints '
+        'using the full range, lists / tuples of floats, ints or both), every window 1..len drawn at random as int / np.int64 / '
+        'np.int32 / float, the four mode strings; non-trivial = non-constant series and window > 1. Step fit: 2..30 samples, '
+        'lengths around powers of two up to 513, positive / negative / mixed-sign / step-like / large-offset data scaled by '
+        '10^U(-12,12), float64 / float32 / every integer width (small values and values using the full range), lists, tuples, '
+        'mixed lists, p in {1,2} as int / np.int64 / float, dir=None; non-trivial = non-constant series. Design spectra: T in '
+        '{0, every boundary*(1 -+ 1e-12), U(0,6), 10^U(-9,3)} as float / np.float64 / int / every numpy integer width / '
+        'float32 / 0-d array (sd_nzs) and in containers: float64 / float32 / integer arrays of every width (also the top of '
+        'the range of narrow dtypes), arange, lists and tuples of floats, ints or both (c_h_factor); classes C D E (default '
+        'and keyword); Z R N uniform in their code ranges, also Python ints and N = 1; displacement as float / np.float64 / '
+        'np.float32 / int 0. Every array argument is also passed as strided / reversed / Fortran-ordered view and read-only. '
+        'A few inputs past 2**16 per run (queries, nodes, series, period arrays). One object for two parameters (nodes as '
+        'queries / values), the same object in consecutive calls, two inputs of one shape back to back. A fixed grid of '
+        '[0, 6.5] s (distinct by construction) is scanned for jumps with bisection down to 1e-12.')
 ASSUMPTIONS = ['node sets strictly increasing and finite (duplicates / unsorted nodes are counted, not judged)',
                'interp2d arguments are numpy arrays with a 2-d table (its documented signature)',
                'interp_left queries below the first node are rejected by the function (outside the domain)',
                'centred window of even size: the statement does not fix the side of the extra sample, either is accepted '
                '(odd sizes decide the centring)',
-               'step-fit: float64, float32 (judged to 64 eps32: the result is float32) or integer dtype, p in {1,2}, dir=None; integer-dtype truncation is the open finding '
-               'C20/int-dtype-truncation and is attributed to it only when result == trunc(expected) element-wise',
+               'float32 arguments may be processed and returned in float32: judged to 64 eps32 (32 eps32 for the step '
+               'levels) instead of 1e-9; a float32 displacement is compared with the corner in float32 (knife edge 4 eps32)',
+               'step-fit: p in {1,2}, dir=None; the result array inherits an integer input dtype = open finding '
+               'C20/int-dtype-truncation, attributed only when (truncation regime) result == trunc(expected) element-wise, '
+               '+-1 next to an integer, or (overflow regime: some expected error outside the range of that dtype) an '
+               'OverflowError is raised while the whole-series error does not fit, or every element is the value the function '
+               'computed (expected within 1e-9) truncated and wrapped modulo 2**bits / converted by the platform cast at the '
+               'same array position; float input is never excused',
+               'step-fit series past a few hundred samples are not driven (the function builds n x n matrices)',
                'step levels are judged for 1 <= ind <= n-2 (both sides non-empty)',
-               'periods are Python/numpy floats; c_h_factor also takes containers (arrays, lists, tuples) of float or integer-typed periods, a bare int scalar is outside its signature; g = 9.81 m/s2 and corner '
-               'period 3 s in the corner-displacement relation d_c = S_d(3 s) * g / (2 pi)^2',
+               'every post-condition is evaluated on a snapshot of the arguments taken at call entry; arguments must be '
+               'bit-for-bit unchanged after the call; an array result must be unchanged after the next call of the function',
+               'c_h_factor takes a Python/numpy float or a container (array, list, tuple) of real periods of any dtype; a bare '
+               'int or float32 scalar and 0-d arrays are outside its signature (len()); sd_nzs and t_eff take any real '
+               'scalar; g = 9.81 m/s2 and corner period 3 s in d_c = S_d(3 s) * g / (2 pi)^2',
                '"continuous to table precision" = one-sided jump <= 0.5 % (three significant digits in the tables)',
+               'same-object histories of Signal objects (checklist line 5) do not apply: the eight functions are stateless',
                'oracle vf/oracles/helpers.py is correct (scalar code from the definitions)']
 _MIN_QUICK = {'interp2d.inside==columnwise-linear': 3000, 'interp2d.on-node==table-row': 2000,
               'interp2d.outside==end-row': 2800, 'interp_left==value-at-greatest-node<=q': 2800,
@@ -49,12 +73,14 @@ _MIN_QUICK = {'interp2d.inside==columnwise-linear': 3000, 'interp2d.on-node==tab
               'sd_nzs==c_h*T^2*Z*N*R': 30000, 'c_h_factor*T^2==sd_nzs(unit)': 25000, 'c_h.array==scalar': 1100,
               'c_h.continuous(boundaries)': 200, 'sd_nzs.continuous(boundaries)': 200, 'c_h.continuous(scan)': 10000,
               'sd_nzs.continuous(scan)': 10000, 't_eff==T_c*d/d_c': 2600, 't_eff(d_c*T/3)==T': 2400,
-              't_eff.rejects-above-corner': 600}
+              't_eff.rejects-above-corner': 600, 'args-unchanged(bit-for-bit)': 110000,
+              'earlier-result-intact-after-next-call': 35000}
 # thorough = 10 x the random workload of quick and a 4 x finer continuity scan
 _MIN_THOROUGH = {k: 10 * v for k, v in _MIN_QUICK.items()}
 _MIN_THOROUGH.update({'c_h.continuous(boundaries)': 200, 'sd_nzs.continuous(boundaries)': 200,
                       'c_h.continuous(scan)': 40000, 'sd_nzs.continuous(scan)': 40000,
-                      'sd_nzs==c_h*T^2*Z*N*R': 120000, 'c_h_factor*T^2==sd_nzs(unit)': 120000})
+                      'sd_nzs==c_h*T^2*Z*N*R': 120000, 'c_h_factor*T^2==sd_nzs(unit)': 120000,
+                      'args-unchanged(bit-for-bit)': 700000, 'earlier-result-intact-after-next-call': 300000})
 MIN_EVALS = {'quick': _MIN_QUICK, 'thorough': _MIN_THOROUGH}
 EXHAUSTIVE = {'quick': 'continuity scan: every interval of the grid 0(2e-4)0.12(1e-3)6.5 s x classes C,D,E x '
                        '{c_h_factor, sd_nzs}, bisected to 1e-12 wherever the change exceeds 0.5 %',
@@ -82,6 +108,117 @@ def _mark(e):
 
 def _cont(v):
     return type(v).__name__
+
+
+# parameter names and defaults of the monitored functions (parsed by hand: no inspect in the hot path)
+SIGS = {'interp2d': (('x', 'xf', 'f'), {}),
+        'interp_left': (('x0', 'x', 'y'), {'y': None}),
+        'calc_roll_av_vals': (('values', 'steps', 'mode'), {'mode': 'forward'}),
+        'calc_step_fn_vals_error': (('values', 'pow', 'dir'), {'pow': 1, 'dir': None}),
+        'calc_step_fn_steps_vals': (('values', 'ind'), {'ind': None}),
+        'c_h_factor': (('period', 'site_class'), {'site_class': 'C'}),
+        'sd_nzs': (('period', 'site_class', 'z_factor', 'r_factor', 'n_factor'), {}),
+        't_eff': (('displacement', 'site_class', 'z_factor', 'r_factor', 'n_factor'), {})}
+LAYOUT = {}        # layout flags (read-only / strided / reversed / fortran) of the array arguments of the call being judged
+
+
+def _snap(v):
+    """Value of an argument at call entry (arrays and lists are copied; tuples and scalars are immutable)."""
+    if isinstance(v, np.ndarray):
+        return v.copy()
+    if isinstance(v, list):
+        return list(v)
+    return v
+
+
+def _unchanged(now, snap):
+    """Bit-for-bit comparison of an argument with its snapshot."""
+    if isinstance(snap, np.ndarray):
+        return isinstance(now, np.ndarray) and now.dtype == snap.dtype and now.shape == snap.shape \
+            and now.tobytes() == snap.tobytes()
+    if isinstance(snap, list):
+        return isinstance(now, list) and len(now) == len(snap) and \
+            all(a is b or (type(a) is type(b) and a == b) for a, b in zip(now, snap))
+    return True
+
+
+def _layout(bound):
+    out = {}
+    for k, v in bound.items():
+        if isinstance(v, np.ndarray) and v.ndim >= 1 and v.size:
+            fl = []
+            if not v.flags.writeable:
+                fl.append('readonly')
+            if not v.flags.c_contiguous:
+                fl.append('fortran' if (v.ndim == 2 and v.flags.f_contiguous) else
+                          ('reversed' if v.strides[0] < 0 else 'strided'))
+            if fl:
+                out[k] = fl
+    return out
+
+
+def _relayout(a, flags):
+    """Rebuild the memory layout recorded in a witness (same values)."""
+    if not isinstance(a, np.ndarray) or not flags:
+        return a
+    if 'strided' in flags:
+        big = np.zeros((2 * a.shape[0],) + a.shape[1:], dtype=a.dtype)
+        big[::2] = a
+        a = big[::2]
+    elif 'reversed' in flags:
+        a = np.ascontiguousarray(a[::-1])[::-1]
+    elif 'fortran' in flags:
+        a = np.asfortranarray(a)
+    if 'readonly' in flags:
+        a.flags.writeable = False
+    return a
+
+
+def _enter(fn):
+    """pre-hook: bind the arguments to their names and snapshot them. The post-conditions are judged against the
+    snapshot (the values the caller passed), never against the possibly modified live objects."""
+    names, defaults = SIGS[fn]
+
+    def pre(args, kwargs):
+        if len(args) > len(names):
+            return None
+        b = dict(defaults)
+        b.update(zip(names, args))
+        b.update(kwargs)
+        if any(k not in b for k in names):
+            return None
+        return b, dict((k, _snap(v)) for k, v in b.items())
+    return pre
+
+
+def _judged(fn, checker):
+    """post-hook: purity of every argument (bit-for-bit against the snapshot), then the post-condition on the snapshot."""
+    def post(args, kwargs, result, st):
+        global LAYOUT
+        if st is None:
+            CTX.observe('%s: call does not match the signature (not judged)' % fn)
+            return
+        live, snap = st
+        LAYOUT = _layout(live)
+        changed = [k for k in live if not _unchanged(live[k], snap[k])]
+        CTX.check(not changed, 'args-unchanged(bit-for-bit)',
+                  lambda: dict(_arg_witness(fn, snap), changed=changed, after=dict((k, live[k]) for k in changed)),
+                  '%s modified its argument(s) %s' % (fn, changed))
+        checker(CTX, snap, result)
+    return post
+
+
+def _arg_witness(fn, snap):
+    """Witness of a call in the form replay() understands (see the check_* functions)."""
+    w = {'fn': fn, 'layout': LAYOUT}
+    ren = {'z_factor': 'z', 'r_factor': 'r', 'n_factor': 'n'}
+    for k, v in snap.items():
+        w[ren.get(k, k)] = v
+        if k in ('x0', 'x', 'y', 'period'):
+            w[k + '_container'] = _cont(v)
+        if k == 'values':
+            w['container'] = _cont(v)
+    return w
 
 
 EPS32 = float(np.finfo(np.float32).eps)
@@ -116,31 +253,26 @@ def check_interp2d(ctx, x, xf, f, result):
     table = [[float(v) for v in row] for row in f.tolist()]
     ref = np.array(O.interp_table(qs, nodes, table), dtype=float).reshape(len(qs), f.shape[1])
     got = np.asarray(result)
-    wit = lambda: {'fn': 'interp2d', 'x': x, 'xf': xf, 'f': f, 'got': got, 'expected': ref}
+    wit = lambda: {'fn': 'interp2d', 'x': x, 'xf': xf, 'f': f, 'got': got, 'expected': ref, 'layout': LAYOUT}
     if got.shape != ref.shape:
         ctx.violation('interp2d.inside==columnwise-linear', wit(),
                       'interp2d returned shape %s, expected %s' % (got.shape, ref.shape))
         return
     got = got.astype(float)
     colscale = np.max(np.abs(np.asarray(table, dtype=float)), axis=0)     # value range of each column
+    # float32 arguments are (partly) processed and returned in float32: a few float32 roundings is all correct code can do
+    rt = 64 * EPS32 if np.float32 in (x.dtype, xf.dtype, f.dtype) else RTOL
     classes = [O.query_class(q, nodes) for q in qs]
     for names, clause in ((('inside',), 'interp2d.inside==columnwise-linear'), (('node',), 'interp2d.on-node==table-row'),
                           (('below', 'above'), 'interp2d.outside==end-row')):
         rows = [i for i, c in enumerate(classes) if c in names]
         if not rows:
             continue
-        okk, idx, err, allowed = tol.worst(got[rows], ref[rows], scale=colscale[np.newaxis, :], rtol=RTOL)
+        okk, idx, err, allowed = tol.worst(got[rows], ref[rows], scale=colscale[np.newaxis, :], rtol=rt)
         ctx.check(okk, clause, wit,
                   'interp2d(x, xf, f): query %r (%s) column %s: got %r expected %r (|diff| %.3g > %.3g); nodes %s'
                   % ((qs[rows[idx[0]]], classes[rows[idx[0]]], idx[1], got[rows][idx], ref[rows][idx], err, allowed,
                       nodes[:8]) if idx else (None, names, None, None, None, err, allowed, nodes[:8])))
-
-
-def _parse_interp_left(args, kwargs):
-    x0 = args[0] if args else kwargs['x0']
-    x = args[1] if len(args) > 1 else kwargs['x']
-    y = args[2] if len(args) > 2 else kwargs.get('y', None)
-    return x0, x, y
 
 
 def _interp_left_domain(x0, x):
@@ -164,7 +296,7 @@ def check_interp_left(ctx, x0, x, y, result):
     scalar, qs, nodes = dom
     idx = O.left_values(qs, nodes, None)
     wit = lambda: {'fn': 'interp_left', 'x0': x0, 'x0_container': _cont(x0), 'x': x, 'x_container': _cont(x), 'y': y,
-                   'y_container': _cont(y), 'got': np.asarray(result), 'expected_index': idx}
+                   'y_container': _cont(y), 'got': np.asarray(result), 'expected_index': idx, 'layout': LAYOUT}
     if scalar:
         clause = 'interp_left.scalar-query'
     elif y is None:
@@ -189,20 +321,19 @@ def check_interp_left(ctx, x0, x, y, result):
         ctx.check(all(gl[i] == exp[i] for i in on), 'interp_left.on-node-query', wit, 'query on a node: ' + msg)
 
 
-def _post_interp2d(args, kwargs, result, pre):
-    x = args[0] if args else kwargs['x']
-    xf = args[1] if len(args) > 1 else kwargs['xf']
-    f = args[2] if len(args) > 2 else kwargs['f']
-    check_interp2d(CTX, x, xf, f, result)
+def _chk_interp2d(ctx, a, result):
+    check_interp2d(ctx, a['x'], a['xf'], a['f'], result)
 
 
-def _post_interp_left(args, kwargs, result, pre):
-    x0, x, y = _parse_interp_left(args, kwargs)
-    check_interp_left(CTX, x0, x, y, result)
+def _chk_interp_left(ctx, a, result):
+    check_interp_left(ctx, a['x0'], a['x'], a['y'], result)
 
 
-def _exc_interp_left(args, kwargs, e, pre):
-    x0, x, y = _parse_interp_left(args, kwargs)
+def _exc_interp_left(args, kwargs, e, st):
+    if st is None:
+        return
+    a = st[1]
+    x0, x, y = a['x0'], a['x'], a['y']
     dom = _interp_left_domain(x0, x)
     if dom is None:
         CTX.observe('interp_left: nodes not strictly increasing / malformed call (not judged)')
@@ -214,7 +345,7 @@ def _exc_interp_left(args, kwargs, e, pre):
     else:
         CTX.exception('interp_left.scalar-query' if scalar else 'interp_left==value-at-greatest-node<=q',
                       {'fn': 'interp_left', 'x0': x0, 'x0_container': _cont(x0), 'x': x, 'x_container': _cont(x), 'y': y,
-                       'y_container': _cont(y)}, e)
+                       'y_container': _cont(y), 'layout': _layout(st[0])}, e)
     _mark(e)
 
 
@@ -233,7 +364,7 @@ def check_rollav(ctx, values, steps, mode, result):
     x = _floats(arr)
     got = np.asarray(result)
     wit = lambda: {'fn': 'calc_roll_av_vals', 'values': values, 'container': _cont(values), 'steps': st, 'mode': mode,
-                   'got': got}
+                   'got': got, 'layout': LAYOUT}
     if not ctx.check(got.shape == (n,), 'rollav.length-kept', wit,
                      'calc_roll_av_vals(%d samples, steps=%d, %r) returned shape %s' % (n, st, mode, got.shape)):
         return
@@ -241,12 +372,22 @@ def check_rollav(ctx, values, steps, mode, result):
     mkey = 'centre' if mode in ('centre', 'center') else mode
     # rounding of the stated algorithm (differences of a running sum) is relative to the largest partial sum
     scale = (math.fsum(abs(v) for v in x) + (st - 1) * max(abs(x[0]), abs(x[-1]))) / st
-    ref = np.array(O.rolling_mean(x, st, mkey))
+    long_int = n * st > 200000 and all(v.is_integer() for v in x)
+    if n * st > 1500000 and not long_int:
+        ctx.observe('calc_roll_av_vals: too long for the scalar oracle (not judged)')
+        return
+    if long_int:
+        xi = [int(v) for v in x]
+        roll = lambda alt=False: O.rolling_mean_prefix(xi, st, mkey, alt)
+        ctx.observe('rollav: long integer-valued series judged with the exact prefix-sum oracle')
+    else:
+        roll = lambda alt=False: O.rolling_mean(x, st, mkey, alt)
+    ref = np.array(roll())
     rt = _rtol_for(arr, 64)
     okk, idx, err, allowed = tol.worst(got, ref, scale=scale, rtol=rt)
     which = 'extra sample before'
     if not okk and mkey == 'centre' and st % 2 == 0:
-        ref2 = np.array(O.rolling_mean(x, st, mkey, alt=True))
+        ref2 = np.array(roll(True))
         ok2 = tol.worst(got, ref2, scale=scale, rtol=rt)[0]
         if ok2:
             okk, which = True, 'extra sample after'
@@ -261,11 +402,8 @@ def check_rollav(ctx, values, steps, mode, result):
                   'constant series %r not preserved: %s' % (x[0], got[:8]))
 
 
-def _post_rollav(args, kwargs, result, pre):
-    values = args[0] if args else kwargs['values']
-    steps = args[1] if len(args) > 1 else kwargs['steps']
-    mode = args[2] if len(args) > 2 else kwargs.get('mode', 'forward')
-    check_rollav(CTX, values, steps, mode, result)
+def _chk_rollav(ctx, a, result):
+    check_rollav(ctx, a['values'], a['steps'], a['mode'], result)
 
 
 # ============================================================================================== monitors: step fit
@@ -294,7 +432,7 @@ def check_step_error(ctx, values, p, direction, result):
     exp = O.step_errors(x, int(p))
     got = np.asarray(result)
     wit = lambda: {'fn': 'calc_step_fn_vals_error', 'values': values, 'container': _cont(values), 'pow': int(p),
-                   'got': got, 'expected': np.array(exp)}
+                   'got': got, 'expected': np.array(exp), 'layout': LAYOUT}
     c_split = 'stepfit.error(p=1)==sum|dev|' if p == 1 else 'stepfit.error(p=2)==sum|dev|^2'
     c_last = 'stepfit.no-split-entry==whole-series-error'
     if got.shape != (n,):
@@ -308,13 +446,57 @@ def check_step_error(ctx, values, p, direction, result):
         g, e = gl[sl], exp[sl]
         okk, idx, err, allowed = tol.worst(np.array(g, dtype=float), np.array(e), scale=scale, rtol=_rtol_for(arr, 64))
         fin = None
-        if not okk and int_in and got.dtype.kind in 'iu' and O.trunc_explains(g, e):
-            fin = K5      # mechanism: float result stored into an array that inherited the integer dtype of the input
+        if not okk and int_in and got.dtype == arr.dtype:
+            # mechanism: float result stored into an array that inherited the integer dtype of the input
+            if O.trunc_explains(g, e):
+                fin = K5                                   # truncation regime
+            elif O.overflow_regime(exp, *_int_range(arr.dtype)) and \
+                    O.wrap_explains(g, e, arr.dtype.itemsize * 8, _int_range(arr.dtype)[0], _platform_cast(arr.dtype)):
+                fin = K5                                   # overflow regime: truncated value wrapped into the dtype
+                ctx.observe('K5 overflow regime: wrapped values returned')
         i = idx[0] if idx else 0
         ctx.check(okk, clause, wit,
                   'calc_step_fn_vals_error(%s%s, pow=%d)[%d] = %r, sum of |deviation|^p of both sides from their own '
                   'means = %r (|diff| %.3g > %.3g)' % (x[:10], '...' if n > 10 else '', p, i + sl.start, g[i], e[i], err,
                                                        allowed), finding=fin)
+
+
+def _int_range(dt):
+    ii = np.iinfo(dt)
+    return int(ii.min), int(ii.max)
+
+
+def _platform_cast(dt):
+    """What this platform's float -> integer conversion stores for out-of-range values: the same numpy cast, on an array
+    of the same length, that the assignment into the integer result array performs."""
+    def cast_many(ts):
+        with np.errstate(all='ignore'), warnings.catch_warnings():
+            warnings.simplefilter('ignore')
+            return [int(v) for v in np.array(ts, dtype=float).astype(dt).tolist()]
+    return cast_many
+
+
+def _exc_step_error(args, kwargs, e, st):
+    """Exception of calc_step_fn_vals_error: attributed to the known finding C20/int-dtype-truncation only in its
+    overflow regime - integer input dtype, OverflowError, and the whole-series error (the scalar store that raises)
+    lies outside the range of that dtype. Everything else is left to the driver (a violation)."""
+    if st is None or not isinstance(e, OverflowError):
+        return
+    a = st[1]
+    arr = _step_domain(a['values'])
+    p = a['pow']
+    if arr is None or arr.dtype.kind not in 'iu' or p not in (1, 2) or isinstance(p, bool):
+        return
+    exp = O.step_errors(_floats(arr), int(p))
+    lo, hi = _int_range(arr.dtype)
+    if any(t > hi or t < lo for t in O.trunc_candidates(exp[-1])):
+        CTX.violation('stepfit.no-split-entry==whole-series-error',
+                      {'fn': 'calc_step_fn_vals_error', 'values': a['values'], 'container': _cont(a['values']),
+                       'pow': int(p), 'got': repr(e), 'expected': np.array(exp), 'layout': _layout(st[0])},
+                      'calc_step_fn_vals_error(%s %s..., pow=%d) raised %r: whole-series error %r does not fit the inherited '
+                      'dtype' % (arr.dtype, _floats(arr)[:8], p, e, exp[-1]), finding=K5)
+        CTX.observe('K5 overflow regime: OverflowError raised')
+        _mark(e)
 
 
 def check_levels(ctx, values, ind, result, ind_given=True):
@@ -333,7 +515,7 @@ def check_levels(ctx, values, ind, result, ind_given=True):
     x = _floats(arr)
     ref = O.step_levels(x, i)
     wit = lambda: {'fn': 'calc_step_fn_steps_vals', 'values': values, 'container': _cont(values),
-                   'ind': i if ind_given else None, 'got': result, 'expected': ref}
+                   'ind': i if ind_given else None, 'got': result, 'expected': ref, 'layout': LAYOUT}
     try:
         got = np.array([float(result[0]), float(result[1])])
         shape_ok = len(result) == 2
@@ -346,17 +528,13 @@ def check_levels(ctx, values, ind, result, ind_given=True):
               % (x[:10], '...' if n > 10 else '', i, result, ref))
 
 
-def _post_step_error(args, kwargs, result, pre):
-    values = args[0] if args else kwargs['values']
-    p = args[1] if len(args) > 1 else kwargs.get('pow', 1)
-    d = args[2] if len(args) > 2 else kwargs.get('dir', None)
-    check_step_error(CTX, values, p, d, result)
+def _chk_step_error(ctx, a, result):
+    check_step_error(ctx, a['values'], a['pow'], a['dir'], result)
 
 
-def _post_levels(args, kwargs, result, pre):
+def _chk_levels(ctx, a, result):
     import eqsig
-    values = args[0] if args else kwargs['values']
-    ind = args[1] if len(args) > 1 else kwargs.get('ind', None)
+    values, ind = a['values'], a['ind']
     given = ind is not None
     if ind is None:
         # the split sample the function chose itself: arg-min of its own (monitored elsewhere) error function
@@ -364,11 +542,11 @@ def _post_levels(args, kwargs, result, pre):
             with attach.paused(), warnings.catch_warnings():
                 warnings.simplefilter('ignore')
                 ind = int(np.argmin(eqsig.fns.average.calc_step_fn_vals_error(values)))
-            CTX.observe('calc_step_fn_steps_vals: ind=None (split = argmin of the error function)')
+            ctx.observe('calc_step_fn_steps_vals: ind=None (split = argmin of the error function)')
         except Exception:
-            CTX.observe('calc_step_fn_steps_vals: outside the domain (not judged)')
+            ctx.observe('calc_step_fn_steps_vals: outside the domain (not judged)')
             return
-    check_levels(CTX, values, ind, result, ind_given=given)
+    check_levels(ctx, values, ind, result, ind_given=given)
 
 
 # ============================================================================================== monitors: design spectra
@@ -379,6 +557,25 @@ def _ds():
 
 def _is_float(v):
     return isinstance(v, float) and not isinstance(v, bool)
+
+
+SCALAR_FORMS = {'int': int, 'float': float, 'float64': np.float64, 'float32': np.float32, 'int64': np.int64,
+                'int32': np.int32, 'int16': np.int16, 'int8': np.int8, 'uint8': np.uint8, 'uint16': np.uint16,
+                'ndarray': np.array}
+
+
+def _scalar(v):
+    """Real scalar (Python / numpy number or 0-d array) -> (float value, is float32) or None."""
+    if isinstance(v, np.ndarray) and v.ndim == 0 and v.dtype.kind in 'fiu':
+        return float(v), v.dtype == np.float32
+    if _is_real(v):
+        return float(v), isinstance(v, np.float32)
+    return None
+
+
+def _to_form(v, name):
+    f = SCALAR_FORMS.get(name)
+    return f(v) if f is not None else v
 
 
 def _is_real(v):
@@ -412,8 +609,8 @@ def check_c_h(ctx, period, site_class, result):
         return
     chs = [float(v) for v in r.ravel().tolist()]
     ds = _ds()
-    for t, ch in zip(ts, chs):
-        t = float(t)
+    for t0, ch in zip(ts, chs):
+        t = float(t0)
         try:
             with attach.paused():
                 sd = float(ds.sd_nzs(t, site_class, 1.0, 1.0, 1.0))
@@ -423,7 +620,7 @@ def check_c_h(ctx, period, site_class, result):
             continue
         mine = O.sd_from_shape(ch, t, 1.0, 1.0, 1.0)
         okk = math.isfinite(ch) and tol.close(mine, sd, scale=max(abs(sd), abs(mine)) if math.isfinite(mine) else 1.0,
-                                               rtol=RTOL)
+                                               rtol=64 * EPS32 if isinstance(t0, np.float32) else RTOL)
         ctx.check(okk, 'c_h_factor*T^2==sd_nzs(unit)',
                   lambda: {'fn': 'c_h_factor', 'period': period, 'period_container': _cont(period),
                            'site_class': site_class, 'got': np.asarray(result), 'element': t, 'c_h': ch, 'sd_nzs_unit': sd},
@@ -433,11 +630,17 @@ def check_c_h(ctx, period, site_class, result):
 
 
 def check_sd(ctx, period, site_class, z, r, n, result):
-    if site_class not in SITE_CLASSES or not _is_float(period) or not math.isfinite(period) or period < 0:
-        ctx.observe('sd_nzs: outside T >= 0 as float / classes C D E (not judged)')
+    sc_ = _scalar(period)
+    fac = [_scalar(v) for v in (z, r, n)]
+    if site_class not in SITE_CLASSES or sc_ is None or not math.isfinite(sc_[0]) or sc_[0] < 0 or None in fac:
+        ctx.observe('sd_nzs: outside T >= 0 as a real scalar / classes C D E (not judged)')
         return
-    t = float(period)
-    wit = lambda: {'fn': 'sd_nzs', 'period': t, 'site_class': site_class, 'z': z, 'r': r, 'n': n, 'got': result}
+    t, f32 = sc_
+    f32 = f32 or any(v[1] for v in fac)
+    if not _is_float(period):
+        ctx.observe('sd_nzs: period passed as %s (judged)' % _cont(period))
+    wit = lambda: {'fn': 'sd_nzs', 'period': t, 'period_form': _cont(period), 'site_class': site_class, 'z': z, 'r': r,
+                   'n': n, 'got': result}
     try:
         with attach.paused():
             ch = float(_ds().c_h_factor(t, site_class))
@@ -449,15 +652,9 @@ def check_sd(ctx, period, site_class, z, r, n, result):
         got = float(result)
     except Exception:
         got = float('nan')
-    ctx.check(tol.close(got, ref, scale=abs(ref), rtol=RTOL), 'sd_nzs==c_h*T^2*Z*N*R', wit,
+    ctx.check(tol.close(got, ref, scale=abs(ref), rtol=64 * EPS32 if f32 else RTOL), 'sd_nzs==c_h*T^2*Z*N*R', wit,
               'class %s T=%r Z=%r R=%r N=%r: sd_nzs = %r but c_h_factor(T)*T^2*Z*N*R = %r (c_h=%r)'
               % (site_class, t, z, r, n, got, ref, ch))
-
-
-def _parse_teff(args, kwargs):
-    names = ('displacement', 'site_class', 'z_factor', 'r_factor', 'n_factor')
-    vals = list(args) + [kwargs[k] for k in names[len(args):]]
-    return vals[0], vals[1], vals[2], vals[3], vals[4]
 
 
 def _corner(site_class, z, r, n):
@@ -470,29 +667,32 @@ EDGE = 1e-12     # |d/d_c - 1| below this: the comparison "d > d_c" is within ro
 
 
 def check_t_eff(ctx, d, site_class, z, r, n, result=None, exc=None):
-    if site_class not in SITE_CLASSES or not all(isinstance(v, (float, int)) and not isinstance(v, bool)
-                                                 and math.isfinite(v) for v in (d, z, r, n)) \
-            or d < 0 or min(z, r, n) <= 0:
+    forms = [_scalar(v) for v in (d, z, r, n)]
+    if site_class not in SITE_CLASSES or None in forms or not all(math.isfinite(v[0]) for v in forms) \
+            or forms[0][0] < 0 or min(v[0] for v in forms[1:]) <= 0:
         ctx.observe('t_eff: outside the domain (not judged)')
         return
-    wit = lambda: {'fn': 't_eff', 'displacement': float(d), 'site_class': site_class, 'z': z, 'r': r, 'n': n,
-                   'got': result if exc is None else repr(exc)}
+    f32 = any(v[1] for v in forms)
+    wit = lambda: {'fn': 't_eff', 'displacement': float(d), 'displacement_form': _cont(d), 'site_class': site_class,
+                   'z': z, 'r': r, 'n': n, 'got': result if exc is None else repr(exc)}
     try:
         dc = _corner(site_class, float(z), float(r), float(n))
     except Exception as e:
         ctx.exception('t_eff==T_c*d/d_c', wit(), e)
         return
     ratio = float(d) / dc
+    # a float32 argument is compared with the corner in float32 (numpy promotion): the knife edge is that wide
+    edge = 4 * EPS32 if f32 else EDGE
     if exc is not None:
-        if isinstance(exc, ValueError) and ratio >= 1 - EDGE:
-            if ratio > 1 + EDGE:
+        if isinstance(exc, ValueError) and ratio >= 1 - edge:
+            if ratio > 1 + edge:
                 ctx.ok('t_eff.rejects-above-corner')
             else:
                 ctx.observe('t_eff: displacement within rounding of the corner (either outcome accepted)')
         else:
             ctx.exception('t_eff==T_c*d/d_c', wit(), exc)
         return
-    if ratio > 1 + EDGE:
+    if ratio > 1 + edge:
         ctx.violation('t_eff.rejects-above-corner', wit(),
                       't_eff(d=%r) returned %r although d exceeds the corner displacement d_c=%r (class %s Z=%r R=%r N=%r)'
                       % (d, result, dc, site_class, z, r, n))
@@ -502,34 +702,28 @@ def check_t_eff(ctx, d, site_class, z, r, n, result=None, exc=None):
         got = float(result)
     except Exception:
         got = float('nan')
-    ctx.check(tol.close(got, ref, scale=abs(ref), rtol=RTOL), 't_eff==T_c*d/d_c', wit,
+    ctx.check(tol.close(got, ref, scale=abs(ref), rtol=64 * EPS32 if f32 else RTOL), 't_eff==T_c*d/d_c', wit,
               't_eff(d=%r, %s, Z=%r, R=%r, N=%r) = %r but T_c*d/d_c = %r with d_c = sd_nzs(3)*g/(2pi)^2 = %r'
               % (d, site_class, z, r, n, got, ref, dc))
 
 
-def _post_c_h(args, kwargs, result, pre):
-    period = args[0] if args else kwargs['period']
-    sc = args[1] if len(args) > 1 else kwargs.get('site_class', 'C')
-    check_c_h(CTX, period, sc, result)
+def _chk_c_h(ctx, a, result):
+    check_c_h(ctx, a['period'], a['site_class'], result)
 
 
-def _post_sd(args, kwargs, result, pre):
-    names = ('period', 'site_class', 'z_factor', 'r_factor', 'n_factor')
-    vals = list(args) + [kwargs[k] for k in names[len(args):]]
-    check_sd(CTX, vals[0], vals[1], vals[2], vals[3], vals[4], result)
+def _chk_sd(ctx, a, result):
+    check_sd(ctx, a['period'], a['site_class'], a['z_factor'], a['r_factor'], a['n_factor'], result)
 
 
-def _post_teff(args, kwargs, result, pre):
-    d, sc, z, r, n = _parse_teff(args, kwargs)
-    check_t_eff(CTX, d, sc, z, r, n, result=result)
+def _chk_teff(ctx, a, result):
+    check_t_eff(ctx, a['displacement'], a['site_class'], a['z_factor'], a['r_factor'], a['n_factor'], result=result)
 
 
-def _exc_teff(args, kwargs, e, pre):
-    try:
-        d, sc, z, r, n = _parse_teff(args, kwargs)
-    except Exception:
+def _exc_teff(args, kwargs, e, st):
+    if st is None:
         return
-    check_t_eff(CTX, d, sc, z, r, n, exc=e)
+    a = st[1]
+    check_t_eff(CTX, a['displacement'], a['site_class'], a['z_factor'], a['r_factor'], a['n_factor'], exc=e)
     _mark(e)
 
 
@@ -545,25 +739,44 @@ def install(ctx):
     g = eqsig.fns.generic
     a = eqsig.fns.average
     d = eqsig.design_spectra
-    attach.wrap(g, 'interp2d', _post_interp2d)
-    attach.wrap(g, 'interp_left', _post_interp_left, on_exception=_exc_interp_left)
-    attach.wrap(a, 'calc_roll_av_vals', _post_rollav)
-    attach.wrap(a, 'calc_step_fn_vals_error', _post_step_error)
-    attach.wrap(a, 'calc_step_fn_steps_vals', _post_levels)
-    attach.wrap(d, 'c_h_factor', _post_c_h)
-    attach.wrap(d, 'sd_nzs', _post_sd)
-    attach.wrap(d, 't_eff', _post_teff, on_exception=_exc_teff)
+    for mod, fn, chk, onex in ((g, 'interp2d', _chk_interp2d, None), (g, 'interp_left', _chk_interp_left, _exc_interp_left),
+                               (a, 'calc_roll_av_vals', _chk_rollav, None),
+                               (a, 'calc_step_fn_vals_error', _chk_step_error, _exc_step_error),
+                               (a, 'calc_step_fn_steps_vals', _chk_levels, None), (d, 'c_h_factor', _chk_c_h, None),
+                               (d, 'sd_nzs', _chk_sd, None), (d, 't_eff', _chk_teff, _exc_teff)):
+        attach.wrap(mod, fn, _judged(fn, chk), pre=_enter(fn), on_exception=onex)
 
 
 # ============================================================================================== relations (driver side)
+HELD = {}      # function name -> (result object, bit-for-bit copy, args, kwargs) of its latest call
+
+
 def _call(ctx, clause, wit, fn, *args, **kwargs):
-    """Call a monitored public function; an exception the monitors have not judged is a violation of `clause`."""
+    """Call a monitored public function; an exception the monitors have not judged is a violation of `clause`.
+    The array result of the previous call of the same function is kept and compared bit-for-bit with its copy AFTER
+    this call has returned (a result living in module-level scratch memory would be overwritten by the next call)."""
+    name = getattr(fn, '__name__', str(fn))
     try:
-        return True, fn(*args, **kwargs)
+        result = fn(*args, **kwargs)
     except Exception as e:
         if not getattr(e, '_vf_seen', False):
-            ctx.exception(clause, wit() if callable(wit) else wit, e)
+            w = wit() if callable(wit) else wit
+            if isinstance(w, dict) and 'layout' not in w:
+                w = dict(w, layout=_layout(w))
+            ctx.exception(clause, w, e)
         return False, None
+    prev = HELD.get(name)
+    if prev is not None:
+        obj, cp, pargs, pkw = prev
+        ctx.check(_unchanged(obj, cp), 'earlier-result-intact-after-next-call',
+                  lambda: {'fn': 'held_result', 'name': name, 'first': {'args': list(pargs), 'kwargs': pkw},
+                           'second': {'args': list(args), 'kwargs': kwargs}, 'first_result_was': cp, 'first_result_now': obj},
+                  'the array returned by %s changed when %s was called again' % (name, name))
+    if isinstance(result, np.ndarray) and result.ndim >= 1:
+        HELD[name] = (result, result.copy(), args, kwargs)
+    else:
+        HELD.pop(name, None)
+    return True, result
 
 
 def _spec_fn(eqsig, which, sc):
@@ -630,29 +843,35 @@ def rel_array_scalar(ctx, eqsig, arg, sc):
             return
         sc_vals.append(float(v))
     arr = np.asarray(arr, dtype=float)
-    ctx.check(arr.shape == (len(periods),) and tol.close(arr, np.array(sc_vals), rtol=RTOL), 'c_h.array==scalar',
+    rt = 64 * EPS32 if (isinstance(arg, np.ndarray) and arg.dtype == np.float32) else RTOL
+    ctx.check(arr.shape == (len(periods),) and tol.close(arr, np.array(sc_vals), rtol=rt), 'c_h.array==scalar',
               dict(wit, got_array=arr, got_scalar=np.array(sc_vals)),
               'c_h_factor(%s %s, %r) = %s but element-wise c_h_factor(float(T)) gives %s'
               % (_cont(arg), list(arg)[:8], sc, arr[:8], sc_vals[:8]))
 
 
-def rel_t_eff_roundtrip(ctx, eqsig, T, sc, z, r, n):
+def rel_t_eff_roundtrip(ctx, eqsig, T, sc, z, r, n, kw=False, form='float'):
     """t_eff(d_c*T/3) == T with d_c from the (monitored) sd_nzs at the corner period."""
     ds = eqsig.design_spectra
-    wit = {'fn': 't_eff_roundtrip', 'T': T, 'site_class': sc, 'z': z, 'r': r, 'n': n}
+    wit = {'fn': 't_eff_roundtrip', 'T': T, 'site_class': sc, 'z': z, 'r': r, 'n': n, 'kw': bool(kw), 'form': form}
     okc, sd3 = _call(ctx, 't_eff(d_c*T/3)==T', wit, ds.sd_nzs, O.T_CORNER, sc, z, r, n)
     if not okc:
         return
-    d = O.corner_displacement(float(sd3)) * T / O.T_CORNER
-    okc, t = _call(ctx, 't_eff(d_c*T/3)==T', wit, ds.t_eff, d, sc, z, r, n)
+    d = _to_form(O.corner_displacement(float(sd3)) * T / O.T_CORNER, form)
+    if kw:
+        okc, t = _call(ctx, 't_eff(d_c*T/3)==T', wit, ds.t_eff, displacement=d, site_class=sc, z_factor=z, r_factor=r,
+                       n_factor=n)
+    else:
+        okc, t = _call(ctx, 't_eff(d_c*T/3)==T', wit, ds.t_eff, d, sc, z, r, n)
     if not okc:
         return
     try:
         t = float(t)
     except Exception:
         t = float('nan')
-    ctx.check(tol.close(t, T, scale=T, rtol=RTOL), 't_eff(d_c*T/3)==T', dict(wit, displacement=d, got=t),
-              't_eff(d_c*T/3) = %r for T = %r (class %s Z=%r R=%r N=%r, d=%r)' % (t, T, sc, z, r, n, d))
+    ctx.check(tol.close(t, T, scale=T, rtol=64 * EPS32 if form == 'float32' else RTOL), 't_eff(d_c*T/3)==T',
+              dict(wit, displacement=float(d), got=t),
+              't_eff(d_c*T/3) = %r for T = %r (class %s Z=%r R=%r N=%r, d=%r as %s)' % (t, T, sc, z, r, n, d, form))
 
 
 def rel_t_eff_above(ctx, eqsig, factor, sc, z, r, n):
@@ -667,6 +886,43 @@ def rel_t_eff_above(ctx, eqsig, factor, sc, z, r, n):
 
 
 # ============================================================================================== workload generators
+NARROW = (np.int8, np.uint8, np.int16, np.uint16)
+
+
+def dress(rng, a):
+    """The same values in another memory layout: strided / reversed view, Fortran order, read-only (checklist line 1)."""
+    if not isinstance(a, np.ndarray) or a.ndim == 0 or a.size == 0:
+        return a
+    r = rng.random()
+    if r < 0.70:
+        return a
+    if r < 0.80:
+        big = np.zeros((2 * a.shape[0],) + a.shape[1:], dtype=a.dtype)
+        big[::2] = a
+        return big[::2]
+    if r < 0.87:
+        return np.ascontiguousarray(a[::-1])[::-1]
+    if r < 0.90 and a.ndim == 2:
+        return np.asfortranarray(a)
+    b = a.copy()
+    if rng.random() < 0.3:
+        big = np.zeros((2 * a.shape[0],) + a.shape[1:], dtype=a.dtype)
+        big[::2] = a
+        b = big[::2]
+    b.flags.writeable = False
+    return b
+
+
+def wide_scale(rng):
+    """Overall scale: 1, a power of two, or 10^U(-12, 12)."""
+    u = rng.random()
+    if u < 0.55:
+        return float(10.0 ** rng.uniform(-12, 12))
+    if u < 0.65:
+        return float(2.0 ** int(rng.integers(-40, 41)))
+    return 1.0
+
+
 def gen_nodes(rng):
     """Strictly increasing node set (float64 or int64) and the name of its class."""
     for _ in range(20):
@@ -695,13 +951,7 @@ def gen_nodes(rng):
             a = float(rng.uniform(-3, 3))
             base = np.linspace(a, a + float(10.0 ** rng.uniform(-1, 1)), m) if m > 1 else np.array([a])
             name = 'linspace'
-        u = rng.random()
-        if u < 0.55:
-            s = 10.0 ** rng.uniform(-12, 6)
-        elif u < 0.65:
-            s = 2.0 ** int(rng.integers(-40, 20))
-        else:
-            s = 1.0
+        s = wide_scale(rng)
         nodes = base * s
         if name == 'integer-grid' and s == 1.0 and rng.random() < 0.5:
             idt = [np.int64, np.int32][int(rng.integers(2))]
@@ -713,44 +963,44 @@ def gen_nodes(rng):
 
 
 def gen_queries(rng, nodes, nq=None, below=True):
-    """Query points: inside, on nodes, one ulp next to nodes, bracket mid-points, below and above."""
+    """Query points: inside, on nodes, one ulp / a hair next to nodes, bracket mid-points, below and above."""
     nf = np.asarray(nodes, dtype=float)
     m = len(nf)
     span = float(nf[-1] - nf[0]) if m > 1 else max(1.0, abs(float(nf[0])))
     if nq is None:
         nq = int(rng.choice([1, 2, 3, 4, 5, 6, 30], p=[.1, .15, .2, .2, .15, .15, .05]))
-    q = []
-    for _ in range(nq):
-        r = rng.random()
+    r_ = rng.random(nq)
+    q = np.empty(nq)
+    for i in range(nq):
+        r = r_[i]
         if r < 0.34 and m > 1:
             j = int(rng.integers(0, m - 1))
-            q.append(float(rng.uniform(nf[j], nf[j + 1])))
+            q[i] = rng.uniform(nf[j], nf[j + 1])
         elif r < 0.54:
-            q.append(float(nf[int(rng.integers(0, m))]))
+            q[i] = nf[int(rng.integers(0, m))]
         elif r < 0.60:
             j = int(rng.integers(0, m))
-            q.append(float(np.nextafter(nf[j], np.inf if rng.random() < 0.5 else -np.inf)))
+            q[i] = np.nextafter(nf[j], np.inf if rng.random() < 0.5 else -np.inf)
         elif r < 0.66:
             # a hair (1e-9 .. 1e-15, relative or absolute) below / above a node
             j = int(rng.integers(0, m))
             h = float(10.0 ** rng.uniform(-15, -9)) * float(rng.choice([-1.0, 1.0]))
-            q.append(float(nf[j] * (1.0 + h)) if rng.random() < 0.5 else float(nf[j] + h))
+            q[i] = nf[j] * (1.0 + h) if rng.random() < 0.5 else nf[j] + h
         elif r < 0.71 and m > 1:
             j = int(rng.integers(0, m - 1))
-            q.append(float(0.5 * (nf[j] + nf[j + 1])))
+            q[i] = 0.5 * (nf[j] + nf[j + 1])
         elif r < 0.85:
-            q.append(float(nf[0] - span * (10.0 ** rng.uniform(-3, 1))))
+            q[i] = nf[0] - span * (10.0 ** rng.uniform(-3, 1))
         else:
-            q.append(float(nf[-1] + span * (10.0 ** rng.uniform(-3, 1))))
-    q = np.array(q, dtype=float)
+            q[i] = nf[-1] + span * (10.0 ** rng.uniform(-3, 1))
     if not below:
         q = np.where(q < nf[0], nf[0] + (nf[0] - q) % max(span, 1e-300), q)
         q = np.maximum(q, nf[0])
     return q
 
 
-def gen_table(rng, m):
-    ncol = int(rng.integers(1, 5))
+def gen_table(rng, m, ncol=None):
+    ncol = int(rng.integers(1, 5)) if ncol is None else ncol
     k = int(rng.integers(0, 4))
     if k == 0:
         f = rng.normal(size=(m, ncol))
@@ -762,29 +1012,66 @@ def gen_table(rng, m):
         f = rng.normal(size=(m, ncol))
         f[:, int(rng.integers(ncol))] = float(rng.normal())
     if k != 1 and rng.random() < 0.5:
-        f = f * 10.0 ** rng.uniform(-3, 3, size=(1, ncol))
+        f = f * 10.0 ** rng.uniform(-12, 12, size=(1, ncol))
     if k == 1 and rng.random() < 0.5:
-        f = f.astype([np.int64, np.int32][int(rng.integers(2))])
+        f = f.astype([np.int64, np.int32, np.int8][int(rng.integers(3))])
     return f
 
 
+def full_range_ints(rng, dt, n, sort_unique=False):
+    """Integers using most of the range of dtype dt (so that sums / differences / squares of neighbours overflow it),
+    always containing values next to both ends of the range."""
+    ii = np.iinfo(dt)
+    v = rng.integers(ii.min, int(ii.max) + 1, size=n, dtype=np.int64)
+    if n >= 2 and rng.random() < 0.7:
+        v[int(rng.integers(n))] = ii.max - int(rng.integers(0, 2))
+        v[int(rng.integers(n))] = ii.min + int(rng.integers(0, 2))
+    if sort_unique:
+        v = np.unique(v)
+    return v.astype(dt)
+
+
 def gen_int_nodes(rng):
-    """Integer-dtype node set with uneven integer spacing 1..4 (so that integer queries fall on and between nodes)."""
+    """Integer-dtype node set: int32/int64 with uneven spacing 1..4 (integer queries fall on and between nodes), or a
+    narrow / unsigned dtype spanning most of its range."""
     m = int(rng.integers(1, 9))
-    idt = [np.int64, np.int32][int(rng.integers(2))]
-    nodes = (np.cumsum(rng.integers(1, 5, size=m)) + int(rng.integers(-6, 4))).astype(idt)
+    if rng.random() < 0.5:
+        dt = NARROW[int(rng.integers(4))]
+        nodes = full_range_ints(rng, dt, m, sort_unique=True)
+        return nodes, 'all-integer-fullrange-' + np.dtype(dt).name
+    idt = [np.int64, np.int32, np.int16, np.uint8][int(rng.integers(4))]
+    nodes = (np.cumsum(rng.integers(1, 5, size=m)) + int(rng.integers(-6, 4) if np.dtype(idt).kind == 'i' else 0)).astype(idt)
     return nodes, 'all-integer-' + np.dtype(idt).name
 
 
 def gen_int_queries(rng, nodes, below=True):
-    lo = int(nodes[0]) - (3 if below else 0)
-    q = rng.integers(lo, int(nodes[-1]) + 4, size=int(rng.integers(1, 9)))
-    return q.astype([np.int64, np.int32][int(rng.integers(2))])
+    ii = np.iinfo(nodes.dtype)
+    lo = max(int(ii.min), int(nodes[0]) - (3 if below else 0)) if not (below and rng.random() < 0.5) else int(ii.min)
+    hi = min(int(ii.max), int(nodes[-1]) + 3) if rng.random() < 0.5 else int(ii.max)
+    if ii.bits >= 32:
+        lo, hi = int(nodes[0]) - (3 if below else 0), int(nodes[-1]) + 3
+    if not below:
+        lo = max(lo, int(nodes[0]))
+    nq = int(rng.integers(1, 9))
+    q = rng.integers(lo, hi + 1, size=nq, dtype=np.int64)
+    on = rng.random(nq) < 0.3
+    q = np.where(on, nodes.astype(np.int64)[rng.integers(0, len(nodes), size=nq)], q)
+    return q.astype(nodes.dtype if rng.random() < 0.7 else np.int64)
+
+
+def _interp_calls(ctx, eqsig, rng, q, nodes, f, style):
+    w = lambda: {'fn': 'interp2d', 'x': q, 'xf': nodes, 'f': f}
+    c = 'interp2d.inside==columnwise-linear'
+    if style == 0:
+        return _call(ctx, c, w, eqsig.interp2d, q, nodes, f)
+    if style == 1:
+        return _call(ctx, c, w, eqsig.interp2d, x=q, xf=nodes, f=f)
+    return _call(ctx, c, w, eqsig.interp2d, q, nodes, f=f)
 
 
 def drive_interp(ctx, eqsig, rng, n_cases):
     for c in range(n_cases):
-        all_int = rng.random() < 0.15
+        all_int = rng.random() < 0.18
         if all_int:
             nodes, ncls = gen_int_nodes(rng)
         else:
@@ -793,55 +1080,213 @@ def drive_interp(ctx, eqsig, rng, n_cases):
         f = gen_table(rng, m)
         if all_int:
             q = gen_int_queries(rng, nodes)
-            if rng.random() < 0.6:
+            u = rng.random()
+            if u < 0.35:
                 f = rng.integers(-9, 10, size=f.shape).astype([np.int64, np.int32][int(rng.integers(2))])
+            elif u < 0.7:
+                dt = NARROW[int(rng.integers(4))]
+                f = full_range_ints(rng, dt, f.size).reshape(f.shape)
         else:
             q = gen_queries(rng, nodes)
-        if not all_int and nodes.dtype.kind == 'i' and rng.random() < 0.5:
-            q = np.round(q).astype(np.int64)
-        nf = nodes.astype(float)
-        inside = bool(np.any((q > nf[0]) & (q < nf[-1]) & ~np.isin(q, nf)))
+            if nodes.dtype.kind == 'i' and rng.random() < 0.5:
+                q = np.round(q).astype(np.int64)
+            elif nodes.dtype.kind == 'f' and rng.random() < 0.12:
+                # float32 forms (all three, or only some of the arguments)
+                n32 = nodes.astype(np.float32)
+                if m == 1 or np.all(np.diff(n32) > 0):
+                    which = int(rng.integers(0, 4))
+                    if which in (0, 1):
+                        nodes = n32
+                        ncls += '-f32'
+                    if which in (0, 2):
+                        q = q.astype(np.float32)
+                    if which in (0, 3):
+                        f = f.astype(np.float32)
+        q, nodes, f = dress(rng, q), dress(rng, nodes), dress(rng, f)
+        nf = np.asarray(nodes, dtype=float)
+        qf = np.asarray(q, dtype=float)
+        inside = bool(np.any((qf > nf[0]) & (qf < nf[-1]) & ~np.isin(qf, nf)))
         nontriv = inside and bool(np.any(np.ptp(np.asarray(f, dtype=float), axis=0) > 0))
-        ctx.case(core.digest('interp', q, nodes, f), nontrivial=nontriv, cls='interp-' + ncls,
-                 sample={'fn': 'interp2d+interp_left', 'nodes': nodes, 'queries': q[:6], 'table_shape': list(f.shape)})
-        _call(ctx, 'interp2d.inside==columnwise-linear', lambda: {'fn': 'interp2d', 'x': q, 'xf': nodes, 'f': f},
-              eqsig.interp2d, q, nodes, f)
+        ctx.case(core.digest('interp', np.asarray(q), np.asarray(nodes), np.asarray(f)), nontrivial=nontriv,
+                 cls='interp-' + ncls,
+                 sample={'fn': 'interp2d+interp_left', 'nodes': nodes, 'queries': q[:6], 'table_shape': list(f.shape),
+                         'dtypes': [str(q.dtype), str(nodes.dtype), str(f.dtype)]})
+        _interp_calls(ctx, eqsig, rng, q, nodes, f, int(rng.integers(3)))
+        if c % 6 == 0:
+            # a second, different input of the same shape right away (the first result is re-checked by _call)
+            f2 = np.ascontiguousarray(np.asarray(f)[::-1]) + (1 if np.asarray(f).dtype.kind == 'f' else 0)
+            q2 = np.ascontiguousarray(np.asarray(q)[::-1])
+            _interp_calls(ctx, eqsig, rng, q2, nodes, f2, 0)
+        if c % 9 == 0:
+            # the node array itself as the query array (one object for two parameters)
+            _interp_calls(ctx, eqsig, rng, nodes, nodes, f, int(rng.integers(2)))
         # left interpolation on the same node set (queries at or above the first node)
         ql = gen_int_queries(rng, nodes, below=False) if all_int else gen_queries(rng, nodes, below=False)
-        yk = int(rng.integers(0, 5))
+        if not all_int and nodes.dtype == np.float32:
+            ql = np.maximum(ql.astype(np.float32), nodes[0])
+        yk = int(rng.integers(0, 7))
         y = [rng.normal(size=m), rng.integers(-9, 10, size=m), rng.normal(size=m).tolist(), None,
-             rng.integers(-9, 10, size=m).tolist()][yk]
-        xk = int(rng.integers(0, 3))
-        xarg = [nodes, nodes.tolist(), nodes][xk]
-        qarg = ql if rng.random() < 0.7 else ql.tolist()
+             rng.integers(-9, 10, size=m).tolist(), rng.normal(size=m).astype(np.float32),
+             full_range_ints(rng, NARROW[int(rng.integers(4))], m)][yk]
+        y = dress(rng, y)
+        xk = int(rng.integers(0, 4))
+        xarg = [nodes, np.asarray(nodes).tolist(), nodes, tuple(np.asarray(nodes).tolist())][xk]
+        u = rng.random()
+        qarg = dress(rng, ql) if u < 0.6 else (ql.tolist() if u < 0.85 else tuple(ql.tolist()))
         wl = lambda: {'fn': 'interp_left', 'x0': qarg, 'x0_container': _cont(qarg), 'x': xarg, 'x_container': _cont(xarg),
                       'y': y, 'y_container': _cont(y)}
-        _call(ctx, 'interp_left==value-at-greatest-node<=q', wl, eqsig.interp_left, qarg, xarg, y)
+        if rng.random() < 0.7:
+            _call(ctx, 'interp_left==value-at-greatest-node<=q', wl, eqsig.interp_left, qarg, xarg, y)
+        else:
+            _call(ctx, 'interp_left==value-at-greatest-node<=q', wl, eqsig.interp_left, x0=qarg, x=xarg, y=y)
         if y is not None:
-            _call(ctx, 'interp_left.y=None->node-index', lambda: dict(wl(), y=None, y_container='NoneType'),
-                  eqsig.interp_left, qarg, xarg)
+            w2 = lambda: dict(wl(), y=None, y_container='NoneType')
+            if rng.random() < 0.5:
+                _call(ctx, 'interp_left.y=None->node-index', w2, eqsig.interp_left, qarg, xarg)
+            else:
+                _call(ctx, 'interp_left.y=None->node-index', w2, eqsig.interp_left, qarg, xarg, y=None)
         s = ql[int(rng.integers(len(ql)))]
         if all_int:
-            s = [int(s), np.int64(s), float(s)][int(rng.integers(3))]
+            s = [int(s), np.int64(s), float(s), nodes.dtype.type(s)][int(rng.integers(4))]
         else:
             s = [float(s), np.float64(s)][int(rng.integers(2))]
         _call(ctx, 'interp_left.scalar-query', lambda: dict(wl(), x0=s, x0_container=_cont(s)),
               eqsig.interp_left, s, xarg, y)
+        if c % 9 == 1 and isinstance(xarg, np.ndarray):
+            # one object as queries, nodes and values
+            _call(ctx, 'interp_left==value-at-greatest-node<=q',
+                  lambda: {'fn': 'interp_left', 'x0': xarg, 'x0_container': 'ndarray', 'x': xarg, 'x_container': 'ndarray',
+                           'y': xarg, 'y_container': 'ndarray'}, eqsig.interp_left, xarg, xarg, xarg)
         if c % 25 == 0 and m > 1:
             # information only: a query below the first node is rejected
             _call(ctx, 'interp_left.scalar-query', None, eqsig.interp_left, float(nf[0] - (nf[-1] - nf[0])), xarg, y)
 
 
-def gen_series(rng, n):
-    x, cls = gen.record(rng, n)
-    return x, cls
+def drive_interp_long(ctx, eqsig, rng):
+    """A few inputs past 2**16 (checklist line 6): many queries on a small table / a few queries on a long node set."""
+    kind = ctx.shard % 4
+    n = 2 ** 16 + int(rng.integers(1, 6))
+    if kind == 0:
+        nodes, _ = gen_nodes(rng)
+        f = gen_table(rng, len(nodes), ncol=2)
+        q = gen_queries(rng, nodes, nq=n)
+        ctx.case(core.digest('interp-long-q', q, nodes, f), cls='interp-long-queries')
+        _interp_calls(ctx, eqsig, rng, q, nodes, f, 0)
+    elif kind == 1:
+        nodes = np.cumsum(rng.uniform(0.1, 2.0, size=n)) * wide_scale(rng)
+        f = gen_table(rng, n, ncol=1)
+        q = gen_queries(rng, nodes, nq=6)
+        ctx.case(core.digest('interp-long-n', q, nodes, f), cls='interp-long-nodes')
+        _interp_calls(ctx, eqsig, rng, q, nodes, f, 1)
+    elif kind == 2:
+        nodes = np.cumsum(rng.integers(1, 4, size=n))
+        ql = gen_queries(rng, nodes, nq=8, below=False)
+        y = rng.normal(size=n)
+        ctx.case(core.digest('left-long-n', ql, nodes), cls='interp_left-long-nodes')
+        _call(ctx, 'interp_left==value-at-greatest-node<=q',
+              lambda: {'fn': 'interp_left', 'x0': ql, 'x0_container': 'ndarray', 'x': nodes, 'x_container': 'ndarray',
+                       'y': y, 'y_container': 'ndarray'}, eqsig.interp_left, ql, nodes, y)
+    else:
+        nodes, _ = gen_nodes(rng)
+        ql = gen_queries(rng, nodes, nq=n, below=False)
+        ctx.case(core.digest('left-long-q', ql, nodes), cls='interp_left-long-queries')
+        _call(ctx, 'interp_left.y=None->node-index',
+              lambda: {'fn': 'interp_left', 'x0': ql, 'x0_container': 'ndarray', 'x': nodes, 'x_container': 'ndarray',
+                       'y': None, 'y_container': 'NoneType'}, eqsig.interp_left, ql, nodes)
+
+
+SPECIAL_N = [1, 2, 3, 4, 5, 7, 8, 9, 15, 16, 17, 31, 32, 33, 63, 64, 65, 127, 128, 129, 255, 256, 257, 511, 512, 513]
+
+
+def shape_series(rng, x):
+    """Plateaus at the start / end, the extreme at the first / last sample (checklist line 6)."""
+    n = len(x)
+    u = rng.random()
+    if n < 2 or u < 0.75:
+        return x, ''
+    x = x.copy()
+    if u < 0.82:
+        k = int(rng.integers(1, n))
+        x[:k] = x[k - 1]
+        return x, '+flatstart'
+    if u < 0.89:
+        k = int(rng.integers(1, n))
+        x[-k:] = x[-k]
+        return x, '+flatend'
+    big = (np.max(np.abs(x)) + 1.0) * float(rng.choice([-3.0, 3.0]))
+    if u < 0.95:
+        x[0] = big
+        return x, '+extreme-first'
+    x[-1] = big
+    return x, '+extreme-last'
+
+
+def series_container(rng, x):
+    """The same numbers (integers rounded) in one of the argument forms; integer forms of narrow dtypes use most of the
+    range of the dtype."""
+    k = int(rng.integers(0, 14))
+    if k <= 2:
+        return np.array(x, dtype=float), 'f64'
+    if k == 3:
+        return np.array(x, dtype=np.float32), 'f32'
+    if k == 4:
+        return np.array(np.round(x), dtype=np.int64) if np.max(np.abs(x)) < 9e18 else np.array(x, dtype=float), 'i64'
+    if k == 5:
+        return np.array(np.clip(np.round(x), -2e9, 2e9), dtype=np.int32), 'i32'
+    if k in (6, 7):
+        dt = NARROW[int(rng.integers(4))]
+        return full_range_ints(rng, dt, len(x)), np.dtype(dt).name + '-fullrange'
+    if k == 8:
+        return [float(v) for v in x], 'list'
+    if k == 9:
+        return tuple(float(v) for v in x), 'tuple'
+    if k == 10:
+        return [int(v) for v in np.clip(np.round(x), -1e15, 1e15)], 'list-int'
+    if k == 11:
+        return [int(round(v)) if i % 2 and abs(v) < 1e15 else float(v) for i, v in enumerate(x)], 'list-mixed'
+    if k == 12:
+        return tuple(int(v) for v in np.clip(np.round(x), -1e15, 1e15)), 'tuple-int'
+    dt = [np.int8, np.uint8, np.int16][int(rng.integers(3))]
+    ii = np.iinfo(dt)
+    return np.array(np.clip(np.round(x), ii.min, ii.max), dtype=dt), np.dtype(dt).name
+
+
+def gen_roll_series(rng, n):
+    amp = float(10.0 ** rng.uniform(-12, 12)) if rng.random() < 0.25 else None
+    x, cls = gen.record(rng, n, amp=amp)
+    if rng.random() < 0.08:
+        # a small signal on a large offset
+        x = x * 10.0 ** rng.uniform(-8, -3) + float(rng.choice([-1.0, 1.0])) * 10.0 ** rng.uniform(0, 6)
+        cls += '+offset'
+    x, tag = shape_series(rng, x)
+    return x, cls + tag
+
+
+def _roll_call(ctx, eqsig, rng, cont, steps, sarg, mode):
+    w = lambda: {'fn': 'calc_roll_av_vals', 'values': cont, 'container': _cont(cont), 'steps': steps, 'mode': mode}
+    clause = 'rollav.%s==window-mean' % ('centre' if mode == 'center' else mode)
+    style = int(rng.integers(0, 4))
+    if mode == 'forward' and style == 0:
+        return _call(ctx, clause, w, eqsig.calc_roll_av_vals, cont, sarg)
+    if style == 1:
+        return _call(ctx, clause, w, eqsig.calc_roll_av_vals, cont, sarg, mode)
+    if style == 2:
+        return _call(ctx, clause, w, eqsig.calc_roll_av_vals, values=cont, steps=sarg, mode=mode)
+    return _call(ctx, clause, w, eqsig.calc_roll_av_vals, cont, steps=sarg, mode=mode)
 
 
 def drive_rollav(ctx, eqsig, rng, n_cases):
     for c in range(n_cases):
-        n = int(rng.integers(1, 41)) if rng.random() < 0.93 else int(rng.integers(41, 401))
-        x, cls = gen_series(rng, n)
-        cont, kind = gen.container(rng, x)
+        u = rng.random()
+        if u < 0.78:
+            n = int(rng.integers(1, 41))
+        elif u < 0.93:
+            n = int(rng.choice(SPECIAL_N))
+        else:
+            n = int(rng.integers(41, 401))
+        x, cls = gen_roll_series(rng, n)
+        cont, kind = series_container(rng, x)
+        cont = dress(rng, cont)
         steps = int(rng.integers(1, n + 1))
         if n > 60:
             steps = int(rng.choice([1, 2, 3, 5, 8, 16, 33, n]))
@@ -849,21 +1294,42 @@ def drive_rollav(ctx, eqsig, rng, n_cases):
             steps = min(n, [1, 2, n, max(1, n - 1)][int(rng.integers(4))])
         arr = np.asarray(cont)
         nontriv = steps > 1 and len(set(arr.tolist())) > 1
-        ctx.case(core.digest('rollav', arr, steps), nontrivial=nontriv, cls='rollav-%s-%s' % (cls, kind),
+        ctx.case(core.digest('rollav', arr, steps), nontrivial=nontriv,
+                 cls='rollav-%s-%s' % ('ints' if kind.endswith('fullrange') else cls.split('+')[0], kind),
                  sample={'fn': 'calc_roll_av_vals', 'n': n, 'class': cls, 'container': kind, 'steps': steps,
                          'head': arr[:8]})
-        sarg = steps if rng.random() < 0.8 else np.int64(steps)
+        ctx.observe('rollav series shape: ' + (cls.split('+', 1)[1] if '+' in cls else 'plain'))
+        v = rng.random()
+        sarg = steps if v < 0.7 else (np.int64(steps) if v < 0.82 else (np.int32(steps) if v < 0.9 else float(steps)))
         for mode in MODES:
-            w = lambda: {'fn': 'calc_roll_av_vals', 'values': cont, 'container': _cont(cont), 'steps': steps, 'mode': mode}
-            if mode == 'forward' and rng.random() < 0.5:
-                _call(ctx, 'rollav.forward==window-mean', w, eqsig.calc_roll_av_vals, cont, sarg)
-            else:
-                _call(ctx, 'rollav.%s==window-mean' % ('centre' if mode == 'center' else mode), w,
-                      eqsig.calc_roll_av_vals, cont, sarg, mode=mode)
+            _roll_call(ctx, eqsig, rng, cont, steps, sarg, mode)
+        if c % 6 == 0 and n > 1:
+            # a different input of the same shape and dtype right after (first results are re-checked by _call)
+            other = np.ascontiguousarray(arr[::-1])
+            _roll_call(ctx, eqsig, rng, other, steps, steps, MODES[int(rng.integers(4))])
+
+
+def drive_rollav_long(ctx, eqsig, rng):
+    """One series past 2**16 per shard: integer-valued (exact O(n) oracle), any window incl. 1, 2**16 and n."""
+    n = 2 ** 16 + int(rng.integers(1, 6))
+    k = ctx.shard % 4
+    if k == 0:
+        x = rng.integers(-9, 10, size=n).astype(float)
+    elif k == 1:
+        x = np.repeat(rng.integers(-3, 4, size=n // 50 + 1), 50)[:n].astype(np.int64)
+    elif k == 2:
+        x = full_range_ints(rng, np.int16, n)
+    else:
+        x = np.round(rng.normal(size=n) * 1e6)
+    steps = int([7, 2 ** 16, n, 1, n // 3, 1000, 2, 2 ** 16 + 1][int(rng.integers(8))])
+    ctx.case(core.digest('rollav-long', x, steps), cls='rollav-long-' + str(x.dtype),
+             sample={'fn': 'calc_roll_av_vals', 'n': n, 'steps': steps, 'dtype': str(x.dtype)})
+    for mode in ('forward', 'backward', 'centre'):
+        _roll_call(ctx, eqsig, rng, x, steps, steps, mode)
 
 
 def gen_step_series(rng, n):
-    k = int(rng.integers(0, 7))
+    k = int(rng.integers(0, 8))
     if k <= 2:      # noise around a positive / negative / zero level
         x = rng.normal(size=n) + [3.0, -3.0, 0.0][k]
         cls = ['positive', 'negative', 'mixed'][k]
@@ -879,28 +1345,54 @@ def gen_step_series(rng, n):
     elif k == 5:    # all-negative with large spread
         x = -np.abs(rng.normal(size=n)) * 10.0 - 0.5
         cls = 'negative'
-    else:           # few levels
+    elif k == 6:    # few levels
         x = rng.choice(np.array([-2.0, -1.0, 0.0, 1.0, 4.0]), size=n)
         cls = 'levels'
-    return x, cls
+    else:           # noise on a large offset (judged relative to the global scale of the series)
+        x = rng.normal(size=n) + float(rng.choice([-1.0, 1.0])) * 10.0 ** rng.uniform(1, 6)
+        cls = 'offset'
+    x, tag = shape_series(rng, x)
+    return x, cls + tag
 
 
 def drive_stepfit(ctx, eqsig, rng, n_cases):
     for c in range(n_cases):
-        n = int(rng.integers(2, 31)) if rng.random() < 0.95 else int(rng.integers(31, 121))
+        u = rng.random()
+        if u < 0.80:
+            n = int(rng.integers(2, 31))
+        elif u < 0.93:
+            n = int(rng.choice([2, 3, 4, 5, 7, 8, 9, 15, 16, 17, 31, 32, 33, 63, 64, 65, 127, 128, 129]))
+        elif u < 0.995:
+            n = int(rng.integers(31, 121))
+        else:
+            n = int(rng.choice([255, 256, 257, 511, 512, 513]))
         x, cls = gen_step_series(rng, n)
         u = rng.random()
-        if u < 0.3:
-            vals = np.round(x * (1.0 if np.max(np.abs(x)) > 2 else 3.0)).astype([np.int64, np.int64, np.int32][int(rng.integers(3))])
-            if rng.random() < 0.15 and np.all(vals >= 0):
-                vals = vals.astype(np.uint16)
-            kind = str(vals.dtype)
-            if rng.random() < 0.3:
-                vals = [int(v) for v in vals.tolist()]
+        if u < 0.36:
+            v = rng.random()
+            if v < 0.55:
+                dt = [np.int64, np.int64, np.int32][int(rng.integers(3))]
+                vals = np.round(x * (1.0 if np.max(np.abs(x)) > 2 else 3.0)).astype(dt)
+                if rng.random() < 0.15 and np.all(vals >= 0):
+                    vals = vals.astype(np.uint16)
+                kind = str(vals.dtype)
+            elif v < 0.75:
+                # narrow / unsigned dtype, small values: the errors fit the dtype (truncation regime of K5)
+                dt = NARROW[int(rng.integers(4))]
+                small = np.clip(np.round(x), -3, 3) + (4 if np.dtype(dt).kind == 'u' else 0)
+                vals = small[:min(n, 6)].astype(dt) if np.dtype(dt).itemsize == 1 else small.astype(dt)
+                kind = str(vals.dtype) + '-small'
+            else:
+                # values using most of the dtype's range: the errors do not fit it (overflow regime of K5)
+                dt = [np.int8, np.uint8, np.int16, np.uint16, np.int32, np.uint32][int(rng.integers(6))]
+                vals = full_range_ints(rng, dt, n)
+                kind = str(vals.dtype) + '-fullrange'
+            if kind in ('int64', 'int32') and rng.random() < 0.3:
+                vals = [int(t) for t in vals.tolist()]
                 kind = 'list-int'
         else:
             if rng.random() < 0.3:
-                x = x * 10.0 ** rng.uniform(-6, 6)
+                x = x * 10.0 ** rng.uniform(-12, 12)
             vals = np.array(x, dtype=float)
             kind = 'float64'
             v = rng.random()
@@ -913,23 +1405,46 @@ def drive_stepfit(ctx, eqsig, rng, n_cases):
             elif v < 0.45:
                 vals = vals.astype(np.float32)
                 kind = 'float32'
+            elif v < 0.5:
+                vals = [int(round(t)) if i % 2 and abs(t) < 1e15 else float(t) for i, t in enumerate(vals.tolist())]
+                kind = 'list-mixed'
+        vals = dress(rng, vals)
         arr = np.asarray(vals)
+        n = len(arr)
         nontriv = len(set(arr.tolist())) > 1
-        ctx.case(core.digest('stepfit', arr), nontrivial=nontriv, cls='stepfit-%s-%s' % (cls, kind),
+        ctx.case(core.digest('stepfit', arr), nontrivial=nontriv, cls='stepfit-%s-%s' % (cls.split('+')[0], kind),
                  sample={'fn': 'calc_step_fn_vals_error+calc_step_fn_steps_vals', 'n': n, 'class': cls, 'dtype': kind,
                          'head': arr[:8]})
         for p in (1, 2):
             w = lambda: {'fn': 'calc_step_fn_vals_error', 'values': vals, 'container': _cont(vals), 'pow': p}
-            if p == 1 and rng.random() < 0.5:
-                _call(ctx, 'stepfit.error(p=1)==sum|dev|', w, eqsig.calc_step_fn_vals_error, vals)
+            clause = 'stepfit.error(p=%d)==sum|dev|%s' % (p, '' if p == 1 else '^2')
+            style = int(rng.integers(0, 5))
+            parg = p if rng.random() < 0.85 else [np.int64(p), float(p)][int(rng.integers(2))]
+            if p == 1 and style == 0:
+                _call(ctx, clause, w, eqsig.calc_step_fn_vals_error, vals)
+            elif style == 1:
+                _call(ctx, clause, w, eqsig.calc_step_fn_vals_error, vals, parg)
+            elif style == 2:
+                _call(ctx, clause, w, eqsig.calc_step_fn_vals_error, vals, parg, None)
+            elif style == 3:
+                _call(ctx, clause, w, eqsig.calc_step_fn_vals_error, values=vals, pow=parg, dir=None)
             else:
-                _call(ctx, 'stepfit.error(p=%d)==sum|dev|%s' % (p, '' if p == 1 else '^2'), w,
-                      eqsig.calc_step_fn_vals_error, vals, pow=p)
+                _call(ctx, clause, w, eqsig.calc_step_fn_vals_error, vals, pow=parg)
+        if c % 6 == 0:
+            other = np.ascontiguousarray(arr[::-1])
+            _call(ctx, 'stepfit.error(p=1)==sum|dev|',
+                  lambda: {'fn': 'calc_step_fn_vals_error', 'values': other, 'container': 'ndarray', 'pow': 1},
+                  eqsig.calc_step_fn_vals_error, other)
         if n >= 3:
             for ind in set([1, n - 2, int(rng.integers(1, n - 1))]):
-                _call(ctx, 'stepfit.levels==side-means',
-                      lambda: {'fn': 'calc_step_fn_steps_vals', 'values': vals, 'container': _cont(vals), 'ind': ind},
-                      eqsig.calc_step_fn_steps_vals, vals, ind)
+                w = lambda: {'fn': 'calc_step_fn_steps_vals', 'values': vals, 'container': _cont(vals), 'ind': ind}
+                v = rng.random()
+                if v < 0.6:
+                    _call(ctx, 'stepfit.levels==side-means', w, eqsig.calc_step_fn_steps_vals, vals, ind)
+                elif v < 0.8:
+                    _call(ctx, 'stepfit.levels==side-means', w, eqsig.calc_step_fn_steps_vals, vals, np.int64(ind))
+                else:
+                    _call(ctx, 'stepfit.levels==side-means', w, eqsig.calc_step_fn_steps_vals, values=vals, ind=ind)
             if c % 4 == 0:
                 _call(ctx, 'stepfit.levels==side-means',
                       lambda: {'fn': 'calc_step_fn_steps_vals', 'values': vals, 'container': _cont(vals), 'ind': None},
@@ -950,7 +1465,7 @@ def gen_period(rng, sc):
     if r < 0.80:
         return float(rng.uniform(0, 6))
     if r < 0.95:
-        return float(10.0 ** rng.uniform(-6, 3))
+        return float(10.0 ** rng.uniform(-9, 3))
     return float(rng.choice([0.05, 0.2, 0.5, 0.75, 1.0, 2.0, 3.0, 4.0, 10.0]))
 
 
@@ -958,13 +1473,14 @@ INT_PERIODS = [0, 1, 2, 3, 4, 5, 6, 10]
 
 
 def gen_period_container(rng, sc):
-    """A container of 1..8 periods in the forms c_h_factor accepts: float / integer arrays, lists, tuples, mixed."""
+    """A container of 1..8 periods in the forms c_h_factor accepts: float / integer arrays (any width, also values near
+    the top of a narrow dtype's range, whose squares overflow it), lists, tuples, mixed."""
     n = int(rng.integers(1, 9))
-    k = int(rng.integers(0, 10))
+    k = int(rng.integers(0, 12))
     fl = [gen_period(rng, sc) for _ in range(n)]
     it = [int(v) for v in rng.choice(INT_PERIODS, size=n, p=[.06, .22, .2, .2, .1, .1, .06, .06])]
     if k == 0:
-        return np.array(fl, dtype=float), 'f64-array'
+        return dress(rng, np.array(fl, dtype=float)), 'f64-array'
     if k == 1:
         return fl, 'float-list'
     if k == 2:
@@ -977,12 +1493,20 @@ def gen_period_container(rng, sc):
         a = int(rng.integers(0, 3))
         return np.arange(a, a + n), 'arange'
     if k == 6:
-        dt = [np.int32, np.int64, np.uint8, np.int16][int(rng.integers(4))]
-        return np.array(it, dtype=dt), 'int-array-' + np.dtype(dt).name
+        dt = [np.int32, np.int64, np.uint8, np.int16, np.int8, np.uint16][int(rng.integers(6))]
+        return dress(rng, np.array(it, dtype=dt)), 'int-array-' + np.dtype(dt).name
     if k == 7:
         return [it[i] if rng.random() < 0.5 else fl[i] for i in range(n)], 'mixed-list'
     if k == 8:
         return [np.int64(v) for v in it], 'numpy-int-list'
+    if k == 9:
+        dt = NARROW[int(rng.integers(4))]
+        ii = np.iinfo(dt)
+        v = rng.integers(0, int(ii.max) + 1, size=n, dtype=np.int64)
+        v[int(rng.integers(n))] = ii.max
+        return dress(rng, v.astype(dt)), 'int-array-fullrange-' + np.dtype(dt).name
+    if k == 10:
+        return dress(rng, np.array(fl, dtype=np.float32)), 'f32-array'
     return [float(v) for v in it], 'integer-valued-float-list'
 
 
@@ -997,31 +1521,81 @@ def drive_spectra_random(ctx, eqsig, rng, n_cases):
         sc = SITE_CLASSES[int(rng.integers(3))]
         T = gen_period(rng, sc)
         z, r, n = gen_factors(rng)
-        if rng.random() < 0.1:
+        u = rng.random()
+        if u < 0.1:
             z, r, n = 1.0, 1.0, 1.0
+        elif u < 0.15:
+            z, r, n = 1, 1, 1                     # Python ints
+        elif u < 0.2:
+            n = 1                                  # N = 1 exactly (lower end of its range)
         ctx.case(core.digest('spectra', sc, T, z, r, n), nontrivial=T > 0, cls='spectra-%s' % sc,
                  sample={'fn': 'c_h_factor+sd_nzs+t_eff', 'site_class': sc, 'T': T, 'Z': z, 'R': r, 'N': n})
         targ = T if rng.random() < 0.5 else np.float64(T)
-        _call(ctx, 'c_h_factor*T^2==sd_nzs(unit)',
-              {'fn': 'c_h_factor', 'period': T, 'period_container': 'float', 'site_class': sc}, ds.c_h_factor, targ, sc)
-        _call(ctx, 'sd_nzs==c_h*T^2*Z*N*R', {'fn': 'sd_nzs', 'period': T, 'site_class': sc, 'z': z, 'r': r, 'n': n},
-              ds.sd_nzs, targ, sc, z, r, n)
+        wc = {'fn': 'c_h_factor', 'period': T, 'period_container': 'float', 'site_class': sc}
+        v = rng.random()
+        if sc == 'C' and v < 0.3:
+            _call(ctx, 'c_h_factor*T^2==sd_nzs(unit)', wc, ds.c_h_factor, targ)         # default site class
+        elif v < 0.6:
+            _call(ctx, 'c_h_factor*T^2==sd_nzs(unit)', wc, ds.c_h_factor, targ, site_class=sc)
+        elif v < 0.7:
+            _call(ctx, 'c_h_factor*T^2==sd_nzs(unit)', wc, ds.c_h_factor, period=targ, site_class=sc)
+        else:
+            _call(ctx, 'c_h_factor*T^2==sd_nzs(unit)', wc, ds.c_h_factor, targ, sc)
+        # sd_nzs: the period in every real scalar form
+        v = rng.random()
+        parg, form = targ, 'float'
+        if v < 0.08:
+            Ti = int(rng.choice(INT_PERIODS))
+            parg = [Ti, np.int64(Ti), np.uint8(Ti), np.int8(Ti), np.int16(Ti), np.int32(Ti)][int(rng.integers(6))]
+            form = _cont(parg)
+        elif v < 0.12:
+            parg, form = np.float32(T), 'float32'
+        elif v < 0.15:
+            parg, form = np.array(T), 'ndarray'
+        elif v < 0.18:
+            parg, form = np.uint8(int(rng.integers(7, 256))), 'uint8'      # long periods in a narrow unsigned dtype
+        ws = {'fn': 'sd_nzs', 'period': float(parg), 'period_form': form, 'site_class': sc, 'z': z, 'r': r, 'n': n}
+        if rng.random() < 0.7:
+            _call(ctx, 'sd_nzs==c_h*T^2*Z*N*R', ws, ds.sd_nzs, parg, sc, z, r, n)
+        else:
+            _call(ctx, 'sd_nzs==c_h*T^2*Z*N*R', ws, ds.sd_nzs, period=parg, site_class=sc, z_factor=z, r_factor=r,
+                  n_factor=n)
         if c % 2 == 0:
             arg, form = gen_period_container(rng, sc)
             ctx.case(core.digest('period-container', sc, form, np.asarray(arg)), nontrivial=True,
                      cls='spectra-container-' + form)
             rel_array_scalar(ctx, eqsig, arg, sc)
+            if c % 12 == 0:
+                # the same container object again, and a different one of the same shape in between
+                other = [float(t) + 0.25 for t in arg]
+                _call(ctx, 'c_h.array==scalar', {'fn': 'c_h_factor', 'period': other, 'period_container': 'list',
+                                                 'site_class': sc}, ds.c_h_factor, other, sc)
+                rel_array_scalar(ctx, eqsig, arg, sc)
         # effective period: inside (0, 3], at the corner (two-sided), above the corner (must be rejected)
-        Te = float(rng.uniform(0, 3)) if rng.random() < 0.8 else float(rng.choice([3.0 * (1 - 1e-9), 1.5, 1e-6, 0.56, 2.999]))
+        Te = float(rng.uniform(0, 3)) if rng.random() < 0.8 else float(rng.choice([3.0 * (1 - 1e-9), 1.5, 1e-6, 0.56, 2.999,
+                                                                                  1e-12]))
         if Te > 0:
-            rel_t_eff_roundtrip(ctx, eqsig, Te, sc, z, r, n)
+            rel_t_eff_roundtrip(ctx, eqsig, Te, sc, z, r, n, kw=rng.random() < 0.3,
+                                form=['float', 'float', 'float64', 'float32'][int(rng.integers(4))])
         if c % 4 == 1:
             rel_t_eff_above(ctx, eqsig, 1.0 + float(10.0 ** rng.uniform(-6, 0.5)), sc, z, r, n)
         if c % 16 == 2:
             rel_t_eff_above(ctx, eqsig, 1.0, sc, z, r, n)       # exactly the corner: either outcome is consistent
         if c % 16 == 3:
-            wit = {'fn': 't_eff', 'displacement': 0.0, 'site_class': sc, 'z': z, 'r': r, 'n': n}
-            _call(ctx, 't_eff==T_c*d/d_c', wit, ds.t_eff, 0.0, sc, z, r, n)
+            d0 = [0.0, 0, np.float64(0.0), np.int64(0)][int(rng.integers(4))]
+            wit = {'fn': 't_eff', 'displacement': 0.0, 'displacement_form': _cont(d0), 'site_class': sc, 'z': z, 'r': r,
+                   'n': n}
+            _call(ctx, 't_eff==T_c*d/d_c', wit, ds.t_eff, d0, sc, z, r, n)
+
+
+def drive_spectra_long(ctx, eqsig, rng):
+    """One period array past 2**16 (shards 0..3 of each group of eight)."""
+    sc = SITE_CLASSES[ctx.shard % 3]
+    n = 2 ** 16 + int(rng.integers(1, 6))
+    arg = rng.uniform(0, 6, size=n) if ctx.shard % 2 else rng.integers(0, 12, size=n).astype(np.int16)
+    ctx.case(core.digest('period-long', sc, arg), cls='spectra-container-long-' + str(arg.dtype))
+    _call(ctx, 'c_h_factor*T^2==sd_nzs(unit)', {'fn': 'c_h_factor', 'period': arg, 'period_container': 'ndarray',
+                                               'site_class': sc}, eqsig.design_spectra.c_h_factor, arg, sc)
 
 
 def scan_grid(tier):
@@ -1071,6 +1645,18 @@ def run_shard(ctx):
     drive_rollav(ctx, eqsig, rng, per(8000 if quick else 80000))
     drive_stepfit(ctx, eqsig, rng, per(6400 if quick else 64000))
     drive_spectra_random(ctx, eqsig, rng, per(4800 if quick else 48000))
+    # a few inputs past 2**16 (quick: one kind per shard; thorough: several of each)
+    for rep in range(1 if quick else 4):
+        which = (ctx.shard // 4 + rep) % 4 if quick else rep
+        if which == 0:
+            drive_interp_long(ctx, eqsig, rng)
+        elif which == 1:
+            drive_rollav_long(ctx, eqsig, rng)
+        elif which == 2:
+            drive_spectra_long(ctx, eqsig, rng)
+        else:
+            drive_rollav_long(ctx, eqsig, rng)
+            drive_interp_long(ctx, eqsig, rng)
     ctx.note('monitored_calls', dict(attach.CALLS))
     ctx.note('tolerance', 'rtol %g of: column range (interp2d), largest partial sum / window (rolling average), n*max|x|^p '
                           '(step-fit error), max|x| (levels), the reference value (design spectra); exact for interp_left; '
@@ -1100,40 +1686,55 @@ def replay(w):
     ds = eqsig.design_spectra
     fn = w.get('fn')
     clause = 'replay'
+    lay = w.get('layout') or {}
+
+    def arr(key, cont_key=None, lkey=None):
+        v = w.get(key)
+        if v is None:
+            return None
+        v = _as_container(v, w.get(cont_key)) if cont_key else np.asarray(v)
+        return _relayout(v, lay.get(lkey or key, []))
     if fn == 'interp2d':
-        _call(ctx, clause, w, eqsig.interp2d, np.asarray(w['x']), np.asarray(w['xf']), np.asarray(w['f']))
+        _call(ctx, clause, w, eqsig.interp2d, arr('x'), arr('xf'), arr('f'))
     elif fn == 'interp_left':
-        x0 = w['x0']
         xc = w.get('x0_container')
-        x0 = float(x0) if xc in ('float', 'float64') else (int(x0) if xc in ('int', 'int64', 'int32') else _as_container(x0, xc))
-        y = w.get('y')
-        y = None if y is None else _as_container(y, w.get('y_container'))
-        _call(ctx, clause, w, eqsig.interp_left, x0, _as_container(w['x'], w.get('x_container')), y)
+        x0 = _to_form(w['x0'], xc) if xc in SCALAR_FORMS and xc != 'ndarray' else arr('x0', 'x0_container')
+        _call(ctx, clause, w, eqsig.interp_left, x0, arr('x', 'x_container'), arr('y', 'y_container'))
     elif fn == 'calc_roll_av_vals':
-        _call(ctx, clause, w, eqsig.calc_roll_av_vals, _as_container(w['values'], w.get('container')), w['steps'],
-              mode=w['mode'])
+        _call(ctx, clause, w, eqsig.calc_roll_av_vals, arr('values', 'container'), w['steps'], mode=w['mode'])
     elif fn == 'calc_step_fn_vals_error':
-        _call(ctx, clause, w, eqsig.calc_step_fn_vals_error, _as_container(w['values'], w.get('container')), pow=w['pow'])
+        _call(ctx, clause, w, eqsig.calc_step_fn_vals_error, arr('values', 'container'), pow=w['pow'])
     elif fn == 'calc_step_fn_steps_vals':
-        vals = _as_container(w['values'], w.get('container'))
+        vals = arr('values', 'container')
         if w.get('ind') is None:
             _call(ctx, clause, w, eqsig.calc_step_fn_steps_vals, vals)
         else:
             _call(ctx, clause, w, eqsig.calc_step_fn_steps_vals, vals, w['ind'])
     elif fn == 'c_h_factor':
-        p = w['period']
-        p = float(p) if w.get('period_container') in ('float', 'float64') else _as_container(p, w.get('period_container'))
+        pc = w.get('period_container')
+        p = float(w['period']) if pc in ('float', 'float64') else arr('period', 'period_container')
         _call(ctx, clause, w, ds.c_h_factor, p, w['site_class'])
     elif fn == 'sd_nzs':
-        _call(ctx, clause, w, ds.sd_nzs, float(w['period']), w['site_class'], w['z'], w['r'], w['n'])
+        _call(ctx, clause, w, ds.sd_nzs, _to_form(w['period'], w.get('period_form', 'float')), w['site_class'], w['z'],
+              w['r'], w['n'])
     elif fn == 't_eff':
-        _call(ctx, clause, w, ds.t_eff, float(w['displacement']), w['site_class'], w['z'], w['r'], w['n'])
+        _call(ctx, clause, w, ds.t_eff, _to_form(w['displacement'], w.get('displacement_form', 'float')), w['site_class'],
+              w['z'], w['r'], w['n'])
+    elif fn == 'held_result':
+        f = {'interp2d': eqsig.interp2d, 'interp_left': eqsig.interp_left, 'calc_roll_av_vals': eqsig.calc_roll_av_vals,
+             'calc_step_fn_vals_error': eqsig.calc_step_fn_vals_error, 'c_h_factor': ds.c_h_factor}.get(w['name'])
+        if f is None:
+            return ['unknown function %r in held_result witness' % w['name']]
+        HELD.clear()
+        _call(ctx, clause, w, f, *w['first']['args'], **w['first']['kwargs'])
+        _call(ctx, clause, w, f, *w['second']['args'], **w['second']['kwargs'])
     elif fn == 'continuity':
         rel_continuity(ctx, eqsig, w['which'], w['site_class'], float(w['a']), float(w['b']), w.get('clause', 'continuity'))
     elif fn == 'c_h_array_scalar':
         rel_array_scalar(ctx, eqsig, _as_container(w['periods'], w.get('container')), w['site_class'])
     elif fn == 't_eff_roundtrip':
-        rel_t_eff_roundtrip(ctx, eqsig, float(w['T']), w['site_class'], w['z'], w['r'], w['n'])
+        rel_t_eff_roundtrip(ctx, eqsig, float(w['T']), w['site_class'], w['z'], w['r'], w['n'], kw=w.get('kw', False),
+                            form=w.get('form', 'float'))
     elif fn == 't_eff_above':
         rel_t_eff_above(ctx, eqsig, float(w['factor']), w['site_class'], w['z'], w['r'], w['n'])
     else:
